@@ -9,6 +9,6 @@ Lemma getinputmode_agree : mem_s "py_getinputmode" translated = true ->
 Proof.
   intros Hin d. first [untranslated Hin | clear Hin].
   all: unfold py_getinputmode, getinputmode, im_len_poll, im_valget, im_short_ids, im_short_len.
-  all: cbn [g_len g_sub g_slice g_le g_lt g_in existsb gbytes gint bind g_eq pv_eq].
+  all: cbn [g_len g_sub g_slice slice_of g_le g_lt g_in existsb gbytes gint bind g_eq pv_eq].
   all: atoms; cbn [bind orb andb negb]; try reflexivity; exfalso; lia.
 Qed.
